@@ -237,7 +237,7 @@ def rule_B(ck, units):
             rets = f.returns()
             dets = []
             for r in rets:
-                tup = [c for c in walk(r['e']) if c['k'] == 'call' and c.get('f') in ('std::make_tuple', 'std::make_pair')]
+                tup = [t_ for t_ in [ir.tuple_node(r['e'])] if t_ is not None]
                 if not tup or len(tup[0].get('a', [])) != 2:
                     dets.append('return at %s is not a (P, R) tuple' % f.where(r))
                     continue
